@@ -1062,6 +1062,22 @@ func safeCall(fun reflect.Value, args []reflect.Value) (res []reflect.Value, err
 	return fun.Call(args), nil
 }
 
+// safeNext asks an Iterator for its next value; like a helper call, a panic
+// inside the application's Next is returned as an error.
+func safeNext(it Iterator) (v interface{}, err error) {
+	defer func() {
+		if r := recover(); r != nil {
+			if e, ok := r.(error); ok {
+				err = fmt.Errorf("could not iterate over %T: %w", it, e)
+			} else {
+				err = fmt.Errorf("could not iterate over %T: %v", it, r)
+			}
+		}
+	}()
+
+	return it.Next(), nil
+}
+
 // evalChainCallee evaluates the path that follows a call, f(x).a.b, with the
 // call's result bound under the path's root.
 func (c *compiler) evalChainCallee(node *ast.CallExpression, result interface{}) (interface{}, error) {
@@ -1196,7 +1212,10 @@ func (c *compiler) evalForExpression(node *ast.ForExpression) (interface{}, erro
 		}
 		if it, ok := iter.(Iterator); ok {
 			i := 0
-			ii := it.Next()
+			ii, err := safeNext(it)
+			if err != nil {
+				return nil, err
+			}
 			for ii != nil {
 				c.ctx.Set(node.KeyName, i)
 				c.ctx.Set(node.ValueName, ii)
@@ -1223,7 +1242,9 @@ func (c *compiler) evalForExpression(node *ast.ForExpression) (interface{}, erro
 					break
 				}
 
-				ii = it.Next()
+				if ii, err = safeNext(it); err != nil {
+					return nil, err
+				}
 				i++
 			}
 			return ret, nil
